@@ -113,7 +113,22 @@ impl Check for C13 {
     }
     fn generate(&self, rng: &mut Rng, _tier: Tier, _idx: u64) -> SeqScn {
         let len = if rng.chance(3, 4) { 240 } else { rng.usize(241) };
-        let bytes = match rng.below(10) {
+        let bytes = match rng.below(11) {
+            10 => {
+                // tight loop that keeps storing to (and reading from) one I/O address: state that only
+                // builds up over many accesses of the same register (buffers, counters, shift registers)
+                let a = 0xF0 + rng.below(16) as u8;
+                let mut p = gen::Prog::new();
+                p.ld_imm(0, rng.u8());
+                let top = p.here();
+                p.st_abs(a, 0);
+                if rng.bool() {
+                    p.ld_abs(1, a);
+                }
+                p.un(0x44, 0); // INC R0
+                p.jr_to(0, top);
+                p.b
+            }
             0..=2 => gen::uniform_image(rng, len),
             3..=8 => gen::biased_image(rng, len),
             _ => {
@@ -136,6 +151,14 @@ impl Check for C13 {
         let dense = rng.chance(3, 10);
         let nev = if dense { 10 + rng.below(190) } else { rng.below(4) };
         let mut events: Vec<(u32, Stim)> = (0..nev).map(|_| (rng.below(max_edges as u64) as u32, random_stim(rng, true))).collect();
+        if rng.chance(1, 12) {
+            // hammer one I/O address through direct bus calls
+            let a = 0xF0 + rng.below(16) as u8;
+            let t0 = rng.below(max_edges as u64) as u32;
+            for k in 0..17 + rng.below(300) as u32 {
+                events.push((t0 + k / 4, if rng.chance(1, 6) { Stim::BusRead(a) } else { Stim::BusWrite(a, rng.u8()) }));
+            }
+        }
         events.sort_by_key(|e| e.0);
         let mut inputs = [0u8; 4];
         for i in inputs.iter_mut() {
